@@ -48,13 +48,79 @@ fn max_cp() -> usize {
 struct Cfg {
     auto: bool,
     bloom: u8,
+    /// the router's query cache is enabled (`QueryRouter::init_cache()`); the read battery then runs
+    /// before the first and after every statement, so that every cacheable answer sits in the cache
+    cache: bool,
+    /// entry point the statements go through: 0 = `execute_parsed`, 1 = `execute_parsed_async`
+    /// (driven by `QueryRouter::block_on`), 2 = CHECKPOINT / ROLLBACK TO through the string-command
+    /// entry point `execute`, the rest through `execute_parsed`
+    entry: u8,
+    /// checkpoint naming scheme: 0 = the k-th checkpoint is named by k letters 'c' (every older name is
+    /// a proper prefix of every newer one), 1 = by NAME_MAX+1-k letters (every newer name is a proper
+    /// prefix of every older one)
+    names: u8,
+}
+/// longest checkpoint name of naming scheme 1 (histories have at most 8 statements)
+const NAME_MAX: usize = 12;
+/// name of the k-th (1-based) manual checkpoint of a history
+fn cp_name(k: usize, scheme: u8) -> String {
+    assert!(k >= 1 && k <= NAME_MAX, "checkpoint ordinal {k} outside the naming scheme");
+    match scheme {
+        0 => "c".repeat(k),
+        _ => "c".repeat(NAME_MAX + 1 - k),
+    }
+}
+/// inverse of `cp_name`
+fn cp_ordinal(name: &str, scheme: u8) -> usize {
+    assert!(!name.is_empty() && name.len() <= NAME_MAX && name.bytes().all(|b| b == b'c'), "not a checkpoint name of this harness: {name}");
+    match scheme {
+        0 => name.len(),
+        _ => NAME_MAX + 1 - name.len(),
+    }
+}
+/// a and b are different and one is a prefix of the other
+fn prefix_related(a: &str, b: &str) -> bool {
+    a != b && (a.starts_with(b) || b.starts_with(a))
 }
 impl Cfg {
     fn encode(self) -> usize {
-        usize::from(self.auto) | (self.bloom as usize) << 1
+        usize::from(self.auto) | (self.bloom as usize) << 1 | usize::from(self.cache) << 3 | (self.entry as usize) << 4 | (self.names as usize) << 6
     }
     fn decode(v: usize) -> Cfg {
-        Cfg { auto: v & 1 == 1, bloom: (v >> 1) as u8 }
+        Cfg { auto: v & 1 == 1, bloom: ((v >> 1) & 3) as u8, cache: (v >> 3) & 1 == 1, entry: ((v >> 4) & 3) as u8, names: ((v >> 6) & 1) as u8 }
+    }
+    fn entry_name(self) -> &'static str {
+        match self.entry {
+            0 => "execute_parsed",
+            1 => "execute_parsed_async",
+            _ => "execute(CHECKPOINT/ROLLBACK)+execute_parsed",
+        }
+    }
+    /// short form used in signatures
+    fn entry_tag(self) -> &'static str {
+        match self.entry {
+            0 => "sync",
+            1 => "async",
+            _ => "legacy-execute",
+        }
+    }
+    fn from_entry_name(n: &str) -> u8 {
+        if n.contains("async") {
+            1
+        } else if n.starts_with("execute(") {
+            2
+        } else {
+            0
+        }
+    }
+    fn names_name(self) -> &'static str {
+        match self.names {
+            0 => "k-th checkpoint = k x 'c' (older names are prefixes of newer ones)",
+            _ => "k-th checkpoint = (13-k) x 'c' (newer names are prefixes of older ones)",
+        }
+    }
+    fn from_names_name(n: &str) -> u8 {
+        u8::from(n.contains("13-k"))
     }
     fn store_name(self) -> &'static str {
         match self.bloom {
@@ -203,6 +269,7 @@ struct Listed {
 struct Sys {
     r: QueryRouter,
     queries: Vec<(Fam, String)>,
+    cfg: Cfg,
 }
 impl Sys {
     fn new(cfg: Cfg) -> Sys {
@@ -215,17 +282,42 @@ impl Sys {
         let mut r = QueryRouter::with_shared_store(store);
         r.init_blob().expect("init_blob");
         r.init_checkpoint_with_config(CheckpointConfig::default().with_max_checkpoints(max_cp()).with_auto_checkpoint(cfg.auto).with_interactive_confirm(false)).expect("init_checkpoint");
-        Sys { r, queries: battery_queries() }
+        if cfg.cache {
+            r.init_cache();
+            assert!(r.cache().is_some());
+        }
+        Sys { r, queries: battery_queries(), cfg }
     }
+    /// every statement and every read of the harness goes through the entry point of the configuration
     fn exec(&self, s: &str) -> Result<QueryResult, query_router::RouterError> {
-        self.r.execute_parsed(s)
+        match self.cfg.entry {
+            0 => self.r.execute_parsed(s),
+            // NODE LIST / EDGE LIST build a tokio runtime of their own inside the router, which tokio
+            // refuses inside `block_on`: these two scans (never cached) stay on the synchronous entry
+            1 if !is_scan(s) => self.r.block_on(self.r.execute_parsed_async(s)).expect("the router has a runtime once init_blob() ran"),
+            2 if s.starts_with("CHECKPOINT ") || s.starts_with("ROLLBACK ") => self.r.execute(s),
+            _ => self.r.execute_parsed(s),
+        }
     }
-    /// a statement of the alphabet: everything goes through `execute_parsed` except `DropTableX`
+    /// a statement of the alphabet: everything goes through `exec` except `DropTableX`
     fn exec_st(&self, st: St, text: &str) -> Result<QueryResult, query_router::RouterError> {
         match st {
             St::DropTableX => self.r.execute("DROP TABLE t"),
-            _ => self.r.execute_parsed(text),
+            _ => self.exec(text),
         }
+    }
+    /// run the reads of the battery whose answers the router caches (SELECT, NEIGHBORS, SIMILAR); returns their number
+    fn fill_cache(&self) -> u64 {
+        let mut n = 0;
+        for (_, q) in self.queries.iter().filter(|(_, q)| q.starts_with("SELECT") || q.starts_with("NEIGHBORS") || q.starts_with("SIMILAR")) {
+            let _ = self.exec(q);
+            n += 1;
+        }
+        n
+    }
+    /// entries in the router's query cache (0 without a cache)
+    fn cached_entries(&self) -> u64 {
+        self.r.cache().map_or(0, |c| c.len() as u64)
     }
     /// full = including the LIST scans (each of them builds a tokio runtime inside the router: ~0.5 ms)
     fn observe(&self, full: bool) -> Obs {
@@ -264,13 +356,22 @@ impl Cp {
             self.name.clone()
         }
     }
-    /// what ROLLBACK TO is given: manual checkpoints by their (unique) name, automatic ones by id
-    fn target(&self) -> String {
-        if self.auto {
+    fn has_id(&self) -> bool {
+        !self.id.is_empty() && self.id != "<not listed>"
+    }
+    /// what ROLLBACK TO is given: automatic checkpoints always by their full id (their names are not
+    /// unique), manual ones by their (unique) name or, where `by_id` asks for it and the id is known
+    /// from the CHECKPOINTS listing, by their full id.  (Abbreviated ids are not used: neither the
+    /// book nor the shell help promise a prefix lookup.)
+    fn target(&self, by_id: bool) -> String {
+        if self.addressed_by_id(by_id) {
             self.id.clone()
         } else {
             self.name.clone()
         }
+    }
+    fn addressed_by_id(&self, by_id: bool) -> bool {
+        self.auto || (by_id && self.has_id())
     }
 }
 
@@ -289,13 +390,15 @@ struct Model {
     /// families that an earlier rollback of this history restored wrongly (sticky): their
     /// post-rollback write probes are skipped, the cause has been reported at that earlier step
     tainted: Vec<Fam>,
+    /// naming scheme of the manual checkpoints (Cfg::names)
+    names: u8,
 }
 impl Model {
     fn knows(&self, id: &str) -> bool {
         self.all.iter().any(|c| c.id == id)
     }
     fn cp(&self, ord: u8) -> Cp {
-        self.all.iter().find(|c| c.ord == ord).cloned().unwrap_or(Cp { ord, name: format!("c{ord}"), id: String::new(), auto: false })
+        self.all.iter().find(|c| c.ord == ord).cloned().unwrap_or(Cp { ord, name: cp_name(ord as usize, self.names), id: String::new(), auto: false })
     }
     /// enter a new checkpoint as the newest one and apply count-based retention
     /// returns the number of checkpoints the reference purges
@@ -330,10 +433,10 @@ fn text_of(s: St, m: &Model) -> (String, String) {
         St::EmbA2 => "EMBED STORE 'a' [0.0, 1.0]".into(),
         St::EmbB => "EMBED STORE 'b' [0.6, 0.8]".into(),
         St::EmbDelA => "EMBED DELETE 'a'".into(),
-        St::Checkpoint => format!("CHECKPOINT 'c{}'", m.created + 1),
+        St::Checkpoint => format!("CHECKPOINT '{}'", cp_name(m.created + 1, m.names)),
         St::Rollback(j) => {
             let cp = m.cp(j);
-            let t = format!("ROLLBACK TO '{}'", cp.target());
+            let t = format!("ROLLBACK TO '{}'", cp.target(false));
             if cp.auto {
                 return (t.clone(), format!("{t} /* checkpoint #{j} {} */", cp.name));
             }
@@ -412,6 +515,21 @@ struct Outcome {
     tail_skipped_tainted: u64,
     tail_rollbacks: u64,
     data_fingerprint: u64,
+    /// ROLLBACK statements under test (main and tail) addressed by name / by full id
+    rollbacks_by_name: u64,
+    rollbacks_by_id: u64,
+    /// of those by name: another retained checkpoint has a name of which the target's name is a proper
+    /// prefix / which is a proper prefix of the target's name
+    name_is_prefix_of_other: u64,
+    other_is_prefix_of_name: u64,
+    /// of those by name: a retained checkpoint with a prefix-related name has a different recorded
+    /// battery (resolving the name to that one would be noticed)
+    prefix_confusable: u64,
+    /// ROLLBACK statements under test that ran while the query cache held entries; sum of the entries
+    rollbacks_with_populated_cache: u64,
+    cached_entries_before_rollbacks: u64,
+    /// batteries taken only to fill the query cache
+    cache_filling_batteries: u64,
 }
 
 fn h64<T: Hash>(t: &T, salt: u64) -> u64 {
@@ -434,7 +552,7 @@ impl Ctx<'_> {
         if !self.report {
             return;
         }
-        let mut replay = json!({"max_checkpoints": max_cp(), "auto_checkpoint": self.cfg.auto, "store": self.cfg.store_name(), "history": self.hist_text, "history_codes": self.hist_codes, "clock": "frozen; +1500 ms before every CHECKPOINT"});
+        let mut replay = json!({"max_checkpoints": max_cp(), "auto_checkpoint": self.cfg.auto, "store": self.cfg.store_name(), "query_cache": self.cfg.cache, "entry_point": self.cfg.entry_name(), "checkpoint_names": self.cfg.names_name(), "history": self.hist_text, "history_codes": self.hist_codes, "clock": "frozen; +1500 ms before every CHECKPOINT"});
         if let (Some(o), Some(e)) = (replay.as_object_mut(), extra.as_object()) {
             for (k, v) in e {
                 o.insert(k.clone(), v.clone());
@@ -519,11 +637,10 @@ fn check_list(sys: &Sys, m: &mut Model, cx: &mut Ctx, cause: &str, target: Optio
 }
 
 /// compare now with the record of `cp`; returns the families that differ
-fn check_restored(sys: &Sys, m: &Model, cx: &mut Ctx, cp: &Cp, phase: &str) -> (Obs, Vec<Fam>) {
-    let now = sys.observe(true);
-    cx.out.reads += now.reads.len() as u64;
-    let mut rec = m.rec.get(&cp.ord).expect("recorded observation").clone();
-    if cx.selftest {
+/// the battery recorded for the checkpoint with this ordinal
+fn recorded(m: &Model, ord: u8, selftest: bool) -> Obs {
+    let mut rec = m.rec.get(&ord).expect("recorded observation").clone();
+    if selftest {
         // deliberately corrupt the reference: pretend embedding 'z' existed at the checkpoint
         for r in rec.reads.iter_mut() {
             if r.1 == "EMBED GET 'z'" {
@@ -531,9 +648,36 @@ fn check_restored(sys: &Sys, m: &Model, cx: &mut Ctx, cp: &Cp, phase: &str) -> (
             }
         }
     }
+    rec
+}
+
+fn check_restored(sys: &Sys, m: &Model, cx: &mut Ctx, cp: &Cp, phase: &str, by_id: bool) -> (Obs, Vec<Fam>) {
+    let now = sys.observe(true);
+    cx.out.reads += now.reads.len() as u64;
+    let rec = recorded(m, cp.ord, cx.selftest);
     let name = cp.label();
     let (pre, took) = if cp.auto { ("c08:auto-checkpoint:rollback-data", "right before the statement that triggered the auto-checkpoint ran") } else { ("c08:rollback-data", "when the checkpoint was taken") };
     let mut bad = vec![];
+    if rec != now {
+        // the database is not the image of the target: is it exactly the image of another retained checkpoint?
+        let other = m.live.iter().filter(|o| o.ord != cp.ord).find(|o| recorded(m, o.ord, cx.selftest) == now);
+        if let Some(o) = other {
+            for fam in [Fam::Rel, Fam::Graph, Fam::Vector] {
+                if first_diff(&rec, &now, fam).is_some() {
+                    bad.push(fam);
+                }
+            }
+            let (q, _, a, b) = [Fam::Rel, Fam::Graph, Fam::Vector].iter().find_map(|f| first_diff(&rec, &now, *f)).expect("a differing read");
+            let (how, given) = if cp.addressed_by_id(by_id) { ("id", cp.id.clone()) } else { ("name", cp.name.clone()) };
+            let rel = if prefix_related(&given, &o.name) || prefix_related(&given, &o.id) { " (the given string is in a prefix relation with that checkpoint's name or id)" } else { "" };
+            cx.viol(
+                &format!("c08:rollback-by-{how}-restores-another-checkpoint"),
+                format!("ROLLBACK TO '{given}' ({phase}; checkpoint '{name}' addressed by its {how}) succeeded but restored the retained checkpoint '{}' (id {}){rel}: every read equals the battery recorded for '{}', e.g. `{q}` returned {a:?} {took} and returns {b:?} now", o.label(), o.id, o.label()),
+                json!({"phase": phase, "checkpoint": name, "addressed_by": how, "given": given, "restored_instead": o.label(), "query": q, "at_checkpoint": a, "after_rollback": b}),
+            );
+            return (now, bad);
+        }
+    }
     for fam in [Fam::Rel, Fam::Graph, Fam::Vector] {
         if let Some((q, kind, a, b)) = first_diff(&rec, &now, fam) {
             bad.push(fam);
@@ -552,10 +696,23 @@ fn check_restored(sys: &Sys, m: &Model, cx: &mut Ctx, cp: &Cp, phase: &str) -> (
     (now, bad)
 }
 
-fn rollback_and_check(sys: &Sys, m: &mut Model, cx: &mut Ctx, cp: &Cp, phase: &str) -> Option<(Obs, Vec<Fam>, bool)> {
-    let stmt = format!("ROLLBACK TO '{}'", cp.target());
+/// `by_id`: address a manual checkpoint by its full id instead of its name (automatic ones always by id)
+fn rollback_and_check(sys: &Sys, m: &mut Model, cx: &mut Ctx, cp: &Cp, phase: &str, by_id: bool) -> Option<(Obs, Vec<Fam>, bool)> {
+    let stmt = format!("ROLLBACK TO '{}'", cp.target(by_id));
     let name = cp.label();
     cx.out.statements += 1;
+    if cp.addressed_by_id(by_id) {
+        cx.out.rollbacks_by_id += 1;
+    } else {
+        cx.out.rollbacks_by_name += 1;
+        let others: Vec<&Cp> = m.live.iter().filter(|o| o.ord != cp.ord && !o.auto).collect();
+        cx.out.name_is_prefix_of_other += u64::from(others.iter().any(|o| o.name != cp.name && o.name.starts_with(&cp.name)));
+        cx.out.other_is_prefix_of_name += u64::from(others.iter().any(|o| o.name != cp.name && cp.name.starts_with(&o.name)));
+        cx.out.prefix_confusable += u64::from(others.iter().any(|o| prefix_related(&o.name, &cp.name) && m.rec.get(&o.ord).map(Obs::cheap) != m.rec.get(&cp.ord).map(Obs::cheap)));
+    }
+    let cached = sys.cached_entries();
+    cx.out.rollbacks_with_populated_cache += u64::from(cached > 0);
+    cx.out.cached_entries_before_rollbacks += cached;
     match sys.exec(&stmt) {
         Err(e) => {
             let kind = if format!("{e}").contains("not found") { "not-found" } else { "error" };
@@ -566,7 +723,7 @@ fn rollback_and_check(sys: &Sys, m: &mut Model, cx: &mut Ctx, cp: &Cp, phase: &s
         Ok(_) => {
             m.rollbacks += 1;
             cx.out.rollback_checks += 1;
-            let (now, bad) = check_restored(sys, m, cx, cp, phase);
+            let (now, bad) = check_restored(sys, m, cx, cp, phase, by_id);
             let target_ok = check_list(sys, m, cx, "rollback", Some(cp));
             Some((now, bad, target_ok))
         }
@@ -677,13 +834,19 @@ fn tail_writes(sys: &Sys, cx: &mut Ctx, after_rb: &Obs, bad: &[Fam]) {
 fn run(hist: &[St], cfg: Cfg, selftest: bool, verbose: bool) -> Outcome {
     let mut out = Outcome::default();
     let sys = Sys::new(cfg);
-    let mut m = Model::default();
+    let mut m = Model { names: cfg.names, ..Model::default() };
     let mut texts: Vec<String> = vec![];
     let codes: Vec<u8> = hist.iter().map(|s| code(*s)).collect();
     // the LIST scans of a recorded battery are compared only by the ROLLBACK under test and its tail
     let full = matches!(hist.last(), Some(St::Rollback(_)));
     for (i, &s) in hist.iter().enumerate() {
         let last = i + 1 == hist.len();
+        if cfg.cache {
+            // before the first and after every statement: whatever the cache accepts is in the cache
+            // when the next statement runs (and a stale answer would show in every later battery)
+            out.reads += sys.fill_cache();
+            out.cache_filling_batteries += 1;
+        }
         let (text, shown) = text_of(s, &m);
         texts.push(shown);
         out.texts = texts.clone();
@@ -692,7 +855,7 @@ fn run(hist: &[St], cfg: Cfg, selftest: bool, verbose: bool) -> Outcome {
             St::Checkpoint => {
                 cx.out.statements += 1;
                 nvc::env::clock_advance_ms(1500);
-                let name = format!("c{}", m.created + 1);
+                let name = cp_name(m.created + 1, cfg.names);
                 let before = sys.observe(full);
                 cx.out.reads += before.reads.len() as u64;
                 let res = sys.exec(&text);
@@ -755,7 +918,7 @@ fn run(hist: &[St], cfg: Cfg, selftest: bool, verbose: bool) -> Outcome {
                     cx.out.nontrivial.push((h64(&(&rec, &cur), 1), added, removed, cp.auto));
                 }
                 cx.out.auto_rollback_checks += u64::from(cp.auto);
-                let r = rollback_and_check(&sys, &mut m, &mut cx, &cp, "main");
+                let r = rollback_and_check(&sys, &mut m, &mut cx, &cp, "main", false);
                 if verbose {
                     eprintln!("  {text} -> {}", if r.is_some() { "Ok" } else { "Err" });
                 }
@@ -775,13 +938,13 @@ fn run(hist: &[St], cfg: Cfg, selftest: bool, verbose: bool) -> Outcome {
                     tail_writes(&sys, &mut cx, &now, &bad);
                     if target_ok {
                         cx.out.tail_rollbacks += 1;
-                        let again = rollback_and_check(&sys, &mut m, &mut cx, &cp, "tail: same checkpoint again, after one write of every kind");
+                        let again = rollback_and_check(&sys, &mut m, &mut cx, &cp, "tail: same checkpoint again (by its full id where known), after one write of every kind", true);
                         let other = m.live.iter().find(|c| c.ord != cp.ord).cloned();
                         if let (Some((_, _, true)), Some(o)) = (again, other) {
                             cx.out.tail_rollbacks += 1;
-                            if rollback_and_check(&sys, &mut m, &mut cx, &o, "tail: the other retained checkpoint").is_some() && m.live.iter().any(|c| c.ord == cp.ord) {
+                            if rollback_and_check(&sys, &mut m, &mut cx, &o, "tail: the other retained checkpoint", false).is_some() && m.live.iter().any(|c| c.ord == cp.ord) {
                                 cx.out.tail_rollbacks += 1;
-                                rollback_and_check(&sys, &mut m, &mut cx, &cp, "tail: back to the first one after rolling back to the other");
+                                rollback_and_check(&sys, &mut m, &mut cx, &cp, "tail: back to the first one after rolling back to the other", false);
                             }
                         }
                     } else {
@@ -889,20 +1052,72 @@ fn bloom_sig(sig: &str) -> String {
     format!("c08:bloom-store:{}", rest.replace("rollback-data", "read-after-rollback-differs"))
 }
 
-/// one history under one configuration.  On a Bloom-filtered store a violating history is run again
-/// on the plain store: violations that do not show there are specific to the filter and get a
-/// `c08:bloom-store:` signature; the others keep the signature they have in part M.
+/// signature of a violation that shows only with the query cache enabled: a read after the ROLLBACK
+/// that differs from the record is a stale cached answer (one signature per entry point, whatever
+/// the family); anything else keeps its tail
+fn cache_sig(sig: &str, cfg: Cfg) -> String {
+    let rest = sig.strip_prefix("c08:").unwrap_or(sig);
+    if rest.starts_with("rollback-data:") || rest.starts_with("auto-checkpoint:rollback-data:") || rest.contains("restores-another-checkpoint") {
+        format!("c08:query-cache:stale-after-rollback:{}", cfg.entry_tag())
+    } else {
+        format!("c08:query-cache:{rest}:{}", cfg.entry_tag())
+    }
+}
+
+/// signature of a violation that shows only through another entry point than `execute_parsed`
+fn entry_sig(sig: &str, cfg: Cfg) -> String {
+    let rest = sig.strip_prefix("c08:").unwrap_or(sig);
+    format!("c08:{}-entry:{rest}", cfg.entry_tag())
+}
+
+/// one history under one configuration.  A violating history of a configuration with a special
+/// feature (query cache, another entry point, Bloom-filtered store) is run again with the features
+/// taken away one after the other (cache, then entry point, then filter): a violation is attributed to
+/// the first feature without which its signature no longer shows (`c08:query-cache:`,
+/// `c08:async-entry:`, `c08:bloom-store:`); what shows on the plain configuration too keeps the
+/// signature it has in part M.
 fn run_case(hist: &[St], cfg: Cfg, selftest: bool, verbose: bool) -> Outcome {
     let mut o = run_isolated(hist, cfg, selftest, 1, verbose);
-    if cfg.bloom != 0 && !o.viols.is_empty() {
-        let plain = run_isolated(hist, Cfg { bloom: 0, ..cfg }, selftest, 1, false);
-        let plain_sigs: HashSet<&String> = plain.viols.iter().map(|v| &v.sig).collect();
-        for v in o.viols.iter_mut() {
-            if !plain_sigs.contains(&v.sig) {
-                v.sig = bloom_sig(&v.sig);
-                v.msg = format!("[only on {}; the same history is clean on TensorStore::new()] {}", cfg.store_name(), v.msg);
-            }
+    if o.viols.is_empty() {
+        return o;
+    }
+    let mut steps: Vec<(&str, Cfg)> = vec![];
+    let mut c = cfg;
+    if c.cache {
+        c.cache = false;
+        steps.push(("cache", c));
+    }
+    if c.entry != 0 {
+        c.entry = 0;
+        steps.push(("entry", c));
+    }
+    if c.bloom != 0 {
+        c.bloom = 0;
+        steps.push(("bloom", c));
+    }
+    let mut open: Vec<usize> = (0..o.viols.len()).collect();
+    for (feature, without) in steps {
+        if open.is_empty() {
+            break;
         }
+        let base = run_isolated(hist, without, selftest, 1, false);
+        let base_sigs: HashSet<&String> = base.viols.iter().map(|v| &v.sig).collect();
+        let mut still = vec![];
+        for i in open {
+            let v = &mut o.viols[i];
+            if base_sigs.contains(&v.sig) {
+                still.push(i);
+                continue;
+            }
+            let (sig, why) = match feature {
+                "cache" => (cache_sig(&v.sig, cfg), format!("only with the query cache enabled (init_cache()), statements through {}; the same history is clean without the cache", cfg.entry_name())),
+                "entry" => (entry_sig(&v.sig, cfg), format!("only through {}; the same history is clean through execute_parsed", cfg.entry_name())),
+                _ => (bloom_sig(&v.sig), format!("only on {}; the same history is clean on TensorStore::new()", cfg.store_name())),
+            };
+            v.sig = sig;
+            v.msg = format!("[{why}] {}", v.msg);
+        }
+        open = still;
     }
     o
 }
@@ -1002,6 +1217,7 @@ fn parse_hist(r: &Value) -> Vec<St> {
         return c.iter().map(|x| decode(x.as_u64().expect("code") as u8)).collect();
     }
     let v = &r["history"];
+    let r_names = r["checkpoint_names"].as_str().unwrap_or("");
     // statements are recognised by their text
     let mut out = vec![];
     for t in v.as_array().expect("history array") {
@@ -1040,8 +1256,8 @@ fn parse_hist(r: &Value) -> Vec<St> {
             St::Checkpoint
         } else if let Some((_, r)) = t.split_once("/* checkpoint #") {
             St::Rollback(r.split(' ').next().unwrap().parse().unwrap())
-        } else if let Some(r) = t.strip_prefix("ROLLBACK TO 'c") {
-            St::Rollback(r.trim_end_matches('\'').parse().unwrap())
+        } else if let Some(r) = t.strip_prefix("ROLLBACK TO '") {
+            St::Rollback(cp_ordinal(r.trim_end_matches('\''), Cfg::from_names_name(r_names)) as u8)
         } else {
             panic!("unknown statement {t}")
         };
@@ -1151,8 +1367,14 @@ fn main() {
             eprintln!("replay part S: {n} violating cases");
         } else {
             let hist = parse_hist(r);
-            let cfg = Cfg { auto: r["auto_checkpoint"].as_bool().unwrap_or(false), bloom: Cfg::from_store_name(r["store"].as_str().unwrap_or("")) };
-            eprintln!("replay: max_checkpoints={} auto_checkpoint={} store={}", max_cp(), cfg.auto, cfg.store_name());
+            let cfg = Cfg {
+                auto: r["auto_checkpoint"].as_bool().unwrap_or(false),
+                bloom: Cfg::from_store_name(r["store"].as_str().unwrap_or("")),
+                cache: r["query_cache"].as_bool().unwrap_or(false),
+                entry: Cfg::from_entry_name(r["entry_point"].as_str().unwrap_or("")),
+                names: Cfg::from_names_name(r["checkpoint_names"].as_str().unwrap_or("")),
+            };
+            eprintln!("replay: max_checkpoints={} auto_checkpoint={} store={} query_cache={} entry_point={} names: {}", max_cp(), cfg.auto, cfg.store_name(), cfg.cache, cfg.entry_name(), cfg.names_name());
             let out = run_case(&hist, cfg, false, true);
             for v in out.viols {
                 n += 1;
@@ -1177,33 +1399,47 @@ fn main() {
     let workers = rep.args.flag("threads").and_then(|s| s.parse().ok()).unwrap_or(nvc::par::worker_count());
     let only: Option<Vec<String>> = rep.args.flag("parts").map(|s| s.split(',').map(str::to_string).collect());
     let plain = Cfg::default();
-    let auto = Cfg { auto: true, bloom: 0 };
-    let bloom = Cfg { auto: false, bloom: 1 };
+    let auto = Cfg { auto: true, ..plain };
+    let bloom = Cfg { bloom: 1, ..plain };
+    // query cache on; everything through execute_parsed (names: newer is a prefix of older) / through execute_parsed_async
+    let q_sync = Cfg { cache: true, entry: 0, names: 1, ..plain };
+    let q_async = Cfg { cache: true, entry: 1, ..plain };
+    // CHECKPOINT / ROLLBACK TO through the string-command entry point `execute`
+    let legacy = Cfg { entry: 2, ..plain };
     let mut configs: Vec<Part> = vec![Part { name: "M", cfg: plain, k: 2, depth: full_depth, extra: extra_level, alphabet: &alphabet }];
     if rep.args.flag("depth").is_none() {
         if thorough {
             configs.push(Part { name: "M_max1", cfg: plain, k: 1, depth: 5, extra: true, alphabet: &alphabet });
-            configs.push(Part { name: "M_max3", cfg: plain, k: 3, depth: 5, extra: true, alphabet: &alphabet });
+            configs.push(Part { name: "M_max3", cfg: Cfg { names: 1, ..plain }, k: 3, depth: 5, extra: true, alphabet: &alphabet });
             configs.push(Part { name: "A", cfg: auto, k: 2, depth: 5, extra: true, alphabet: &alphabet_a });
             configs.push(Part { name: "A_max1", cfg: auto, k: 1, depth: 4, extra: true, alphabet: &alphabet_a });
-            configs.push(Part { name: "A_max3", cfg: auto, k: 3, depth: 4, extra: true, alphabet: &alphabet_a });
+            configs.push(Part { name: "A_max3", cfg: Cfg { names: 1, ..auto }, k: 3, depth: 4, extra: true, alphabet: &alphabet_a });
             configs.push(Part { name: "B", cfg: bloom, k: 2, depth: 5, extra: true, alphabet: &alphabet });
-            configs.push(Part { name: "B_default_filter", cfg: Cfg { auto: false, bloom: 2 }, k: 2, depth: 4, extra: true, alphabet: &alphabet });
-            configs.push(Part { name: "AB", cfg: Cfg { auto: true, bloom: 1 }, k: 2, depth: 4, extra: true, alphabet: &alphabet_a });
+            configs.push(Part { name: "B_default_filter", cfg: Cfg { bloom: 2, ..plain }, k: 2, depth: 4, extra: true, alphabet: &alphabet });
+            configs.push(Part { name: "AB", cfg: Cfg { auto: true, bloom: 1, ..plain }, k: 2, depth: 4, extra: true, alphabet: &alphabet_a });
+            configs.push(Part { name: "Q_sync", cfg: q_sync, k: 2, depth: 5, extra: true, alphabet: &alphabet });
+            configs.push(Part { name: "Q_async", cfg: q_async, k: 2, depth: 5, extra: true, alphabet: &alphabet });
+            configs.push(Part { name: "Q_async_max3", cfg: Cfg { names: 1, ..q_async }, k: 3, depth: 4, extra: true, alphabet: &alphabet });
+            configs.push(Part { name: "E_async", cfg: Cfg { entry: 1, ..plain }, k: 2, depth: 4, extra: true, alphabet: &alphabet });
+            configs.push(Part { name: "E_legacy", cfg: legacy, k: 2, depth: 4, extra: true, alphabet: &alphabet });
+            configs.push(Part { name: "Q_legacy", cfg: Cfg { cache: true, ..legacy }, k: 2, depth: 4, extra: true, alphabet: &alphabet });
         } else {
             configs.push(Part { name: "A", cfg: auto, k: 2, depth: 4, extra: true, alphabet: &alphabet_a });
             configs.push(Part { name: "B", cfg: bloom, k: 2, depth: 4, extra: false, alphabet: &alphabet });
+            configs.push(Part { name: "Q_sync", cfg: q_sync, k: 2, depth: 4, extra: false, alphabet: &alphabet });
+            configs.push(Part { name: "Q_async", cfg: q_async, k: 2, depth: 4, extra: false, alphabet: &alphabet });
+            configs.push(Part { name: "E_legacy", cfg: legacy, k: 2, depth: 3, extra: true, alphabet: &alphabet });
         }
     }
     if let Some(only) = &only {
         configs.retain(|c| only.iter().any(|o| o == c.name));
     }
-    let describe = |pred: &dyn Fn(&Part) -> bool| configs.iter().filter(|c| pred(c)).map(|c| format!("{}: K={} D={}{} {}", c.name, c.k, c.depth, if c.extra { "+1r" } else { "" }, c.cfg.store_name())).collect::<Vec<_>>();
+    let describe = |pred: &dyn Fn(&Part) -> bool| configs.iter().filter(|c| pred(c)).map(|c| format!("{}: K={} D={}{} {} names{} cache={} via {}", c.name, c.k, c.depth, if c.extra { "+1r" } else { "" }, c.cfg.store_name(), c.cfg.names, c.cfg.cache, c.cfg.entry_name())).collect::<Vec<_>>();
     rep.rule(&format!(
-        "M: BFS over statement histories on a fresh QueryRouter(max_checkpoints=K, auto-checkpoint off, store TensorStore::new()): alphabet = {} data statements {:?} + CHECKPOINT 'c<k>' + ROLLBACK TO 'c<j>' for every checkpoint the reference retains; every history of <= D statements, '+1r' = plus every history of D+1 statements ending in CHECKPOINT or ROLLBACK; parts {:?}; a history is expanded further only if its state key (read battery, retained checkpoints with their recorded batteries (without the LIST scans), numbers of checkpoints / node creates / edge creates, min(rollbacks,2)) is new; after every statement: listed checkpoint ids == reference (the newest K created); after every ROLLBACK: battery == battery recorded before that CHECKPOINT, checkpoint list == reference, one write per engine succeeds and is readable, rollback to the same checkpoint again, to another retained one and back. non-trivial = the database differed from the checkpoint image when ROLLBACK ran",
+        "M: BFS over statement histories on a fresh QueryRouter(max_checkpoints=K, auto-checkpoint off, store TensorStore::new()): alphabet = {} data statements {:?} + CHECKPOINT '<name k>' + ROLLBACK TO '<name j>' for every checkpoint the reference retains; checkpoint names stand in a prefix relation: names0 = the k-th checkpoint of a history is named by k letters 'c' ('c', 'cc', 'ccc': every older name is a proper prefix of every newer one), names1 = by 13-k letters (every newer name is a proper prefix of every older one); the ROLLBACK under test addresses a manual checkpoint by its name, the tail rolls back to the same checkpoint by its full id (as listed by CHECKPOINTS), to the other retained one by name and back by name (abbreviated ids are never used: the book and the shell help document lookup by name and by id only); every history of <= D statements, '+1r' = plus every history of D+1 statements ending in CHECKPOINT or ROLLBACK; parts {:?}; a history is expanded further only if its state key (read battery, retained checkpoints with their recorded batteries (without the LIST scans), numbers of checkpoints / node creates / edge creates, min(rollbacks,2)) is new; after every statement: listed checkpoint ids == reference (the newest K created); after every ROLLBACK: battery == battery recorded before that CHECKPOINT, checkpoint list == reference, one write per engine succeeds and is readable, rollback to the same checkpoint again, to another retained one and back. non-trivial = the database differed from the checkpoint image when ROLLBACK ran",
         alphabet.len(),
         alphabet,
-        describe(&|c| !c.cfg.auto && c.cfg.bloom == 0)
+        describe(&|c| !c.cfg.auto && c.cfg.bloom == 0 && !c.cfg.cache && c.cfg.entry == 0)
     ));
     rep.rule("S: 3..5 CHECKPOINTs within one clock second x entropy seeds 1..8, max_checkpoints=2: the newest two must be listed");
     rep.rule(&format!(
@@ -1216,6 +1452,11 @@ fn main() {
         "B: the BFS of M (same alphabet, same oracle) on QueryRouter::with_shared_store(<Bloom-filtered TensorStore>), so get/exists of every engine and of the blob/checkpoint store go through the filter; parts {:?}. A violating history is re-run on TensorStore::new(): violations that show only with the filter are reported as c08:bloom-store:... (rollback-data becomes read-after-rollback-differs), the others under their part-M signature",
         describe(&|c| c.cfg.bloom != 0)
     ));
+    rep.rule(&format!(
+        "Q (query cache) / E (entry points): the BFS of M (same alphabet, same oracle) on a router with QueryRouter::init_cache() (Q) and/or with every statement and every read going through another entry point: execute_parsed_async driven by QueryRouter::block_on (NODE LIST / EDGE LIST, which are not cacheable and build their own runtime, stay on execute_parsed), or CHECKPOINT / ROLLBACK TO through the string-command entry point execute; parts {:?}. With the cache on, the read battery (2 SELECT, 18 NEIGHBORS, 2 SIMILAR are cacheable) runs before the first and after every statement, so every answer the cache accepts is cached when ROLLBACK runs; after the ROLLBACK (and after every later statement of the tail) the same statement texts must return the recorded battery. A violating history is re-run without the cache, then through execute_parsed: what shows only with the cache is reported as c08:query-cache:stale-after-rollback:<sync|async|legacy-execute> (other checks: c08:query-cache:<check>:<entry>), what shows only through the other entry point as c08:<async|legacy-execute>-entry:<check>. If after a successful ROLLBACK every read equals the battery recorded for ANOTHER retained checkpoint (and not the target's), the violation is c08:rollback-by-name-restores-another-checkpoint / c08:rollback-by-id-restores-another-checkpoint instead of c08:rollback-data:*",
+        describe(&|c| c.cfg.cache || c.cfg.entry != 0)
+    ));
+    rep.assume("query-cache parts use only statements that go through one entry point (execute_parsed or execute_parsed_async): writes through the string-command parser `execute` (DropTableX) are kept out of them, their cache bookkeeping is not the subject of C08; auto-checkpoints are not combined with execute_parsed_async (protect_destructive_op blocks on the router's runtime, which tokio refuses inside block_on)");
     rep.assume("reads are compared as sorted multisets; any error counts as one value 'failed' (error texts are not compared); internal row ids, checkpoint uuids and created_at are not compared");
     rep.assume("a checkpoint that the reference retains stays retained across data statements and rollbacks (the statement: retention is by count only)");
     rep.assume("checkpoints are identified by the id CHECKPOINTS lists; a listed id never seen before with is_auto=true after a data statement is a checkpoint created by that statement (auto-checkpoint names are not unique, so ROLLBACK TO uses the id); 'newest' is creation order = statement order");
@@ -1229,9 +1470,36 @@ fn main() {
 
     // ---- parts M, A, B
     let mut vacuous: Vec<String> = vec![];
-    for c in &configs {
-        MAX_CP.store(c.k, std::sync::atomic::Ordering::Relaxed);
-        let st = explore(&mut rep, c, workers, selftest);
+    // parts with the same max_checkpoints are explored concurrently (each with its own worker
+    // processes per BFS level: the first levels of a part are too small to occupy the machine);
+    // their reports are applied in part order
+    let concurrent = configs.iter().all(|c| c.k == configs[0].k) && rep.args.flag("sequential").is_none();
+    let mut results: Vec<(Stats, Deferred)> = vec![];
+    if concurrent && !configs.is_empty() {
+        MAX_CP.store(configs[0].k, std::sync::atomic::Ordering::Relaxed);
+        results = std::thread::scope(|sc| {
+            let hs: Vec<_> = configs
+                .iter()
+                .map(|c| {
+                    sc.spawn(move || {
+                        let mut d = Deferred::default();
+                        let st = explore(&mut d, c, workers, selftest);
+                        (st, d)
+                    })
+                })
+                .collect();
+            hs.into_iter().map(|h| h.join().expect("part thread panicked")).collect()
+        });
+    } else {
+        for c in &configs {
+            MAX_CP.store(c.k, std::sync::atomic::Ordering::Relaxed);
+            let mut d = Deferred::default();
+            let st = explore(&mut d, c, workers, selftest);
+            results.push((st, d));
+        }
+    }
+    for (c, (st, d)) in configs.iter().zip(results) {
+        d.apply(&mut rep);
         if c.name == "M" && (st.states < 200 || st.nontrivial < 50 || st.nt_added == 0 || st.nt_removed == 0 || st.purges == 0) {
             vacuous.push(format!("M: too few distinct states / non-trivial rollbacks / retention purges ({} / {} / {})", st.states, st.nontrivial, st.purges));
         }
@@ -1250,6 +1518,27 @@ fn main() {
         rep.add("rollback_checks_to_auto_checkpoints", st.auto_rollbacks);
         if c.cfg.bloom != 0 {
             rep.add("rollback_checks_on_bloom_filtered_store", st.rollback_checks);
+        }
+        if c.name == "M" && (st.by_name < 100 || st.by_id < 100 || st.name_is_prefix_of_other < 50 || st.prefix_confusable < 50) {
+            vacuous.push(format!("M: too few rollbacks by name / by id / whose name is a proper prefix of another retained name / where the prefix-related checkpoint has a different image ({} / {} / {} / {})", st.by_name, st.by_id, st.name_is_prefix_of_other, st.prefix_confusable));
+        }
+        if c.cfg.cache && c.cfg.entry != 2 && (st.states < 200 || st.nontrivial < 20 || st.nt_added == 0 || st.nt_removed == 0 || st.rollbacks_with_cache < 100 || st.other_is_prefix_of_name + st.name_is_prefix_of_other < 20) {
+            vacuous.push(format!("{}: too few distinct states / non-trivial rollbacks / rollbacks with a populated query cache / prefix-related names ({} / {} / {} / {})", c.name, st.states, st.nontrivial, st.rollbacks_with_cache, st.other_is_prefix_of_name + st.name_is_prefix_of_other));
+        }
+        if c.cfg.entry == 2 && (st.nontrivial < 5 || st.rollback_checks < 50) {
+            vacuous.push(format!("{}: too few rollback checks / non-trivial ones ({} / {})", c.name, st.rollback_checks, st.nontrivial));
+        }
+        rep.add("rollbacks_addressed_by_name", st.by_name);
+        rep.add("rollbacks_addressed_by_full_id", st.by_id);
+        rep.add("rollbacks_by_name_with_prefix_related_retained_name", st.name_is_prefix_of_other + st.other_is_prefix_of_name);
+        rep.add("rollbacks_by_name_where_prefix_related_checkpoint_has_another_image", st.prefix_confusable);
+        if c.cfg.cache {
+            rep.add("rollbacks_with_populated_query_cache", st.rollbacks_with_cache);
+        }
+        match c.cfg.entry {
+            0 => rep.add("rollback_checks_via_execute_parsed", st.rollback_checks),
+            1 => rep.add("rollback_checks_via_execute_parsed_async", st.rollback_checks),
+            _ => rep.add("rollback_checks_via_execute", st.rollback_checks),
         }
     }
     rep.add("evaluations", s_cases);
@@ -1292,9 +1581,52 @@ struct Stats {
     auto_rollbacks: u64,
     auto_nontrivial: u64,
     mixed: u64,
+    by_name: u64,
+    by_id: u64,
+    name_is_prefix_of_other: u64,
+    other_is_prefix_of_name: u64,
+    prefix_confusable: u64,
+    rollbacks_with_cache: u64,
 }
 
-fn explore(rep: &mut Report, pt: &Part, workers: usize, selftest: bool) -> Stats {
+/// what a part wants to tell the report; applied in part order once the part has finished, so that
+/// parts explored concurrently leave the same evidence as parts explored one after the other
+#[derive(Default)]
+struct Deferred {
+    acts: Vec<Act>,
+}
+enum Act {
+    Violation(String, String, Value),
+    Machinery(String),
+    Sample(Value),
+    Part(String, Value),
+}
+impl Deferred {
+    fn violation(&mut self, sig: impl Into<String>, msg: impl Into<String>, replay: Value) {
+        self.acts.push(Act::Violation(sig.into(), msg.into(), replay));
+    }
+    fn machinery(&mut self, s: impl Into<String>) {
+        self.acts.push(Act::Machinery(s.into()));
+    }
+    fn sample(&mut self, v: Value) {
+        self.acts.push(Act::Sample(v));
+    }
+    fn part(&mut self, name: &str, v: Value) {
+        self.acts.push(Act::Part(name.to_string(), v));
+    }
+    fn apply(self, rep: &mut Report) {
+        for a in self.acts {
+            match a {
+                Act::Violation(s, m, r) => rep.violation(s, m, r),
+                Act::Machinery(s) => rep.machinery(s),
+                Act::Sample(v) => rep.sample(v),
+                Act::Part(n, v) => rep.part(&n, v),
+            }
+        }
+    }
+}
+
+fn explore(rep: &mut Deferred, pt: &Part, workers: usize, selftest: bool) -> Stats {
     let (part, cfg, alphabet, full_depth, extra_level) = (pt.name, pt.cfg, pt.alphabet, pt.depth, pt.extra);
     let mut kept_per_sig: BTreeMap<String, u64> = BTreeMap::new();
     let mut seen: HashSet<(u64, u64)> = HashSet::new();
@@ -1365,6 +1697,14 @@ fn explore(rep: &mut Report, pt: &Part, workers: usize, selftest: bool) -> Stats
             tot.tail_writes += o.tail_writes;
             tot.tail_skipped_tainted += o.tail_skipped_tainted;
             tot.tail_rollbacks += o.tail_rollbacks;
+            tot.rollbacks_by_name += o.rollbacks_by_name;
+            tot.rollbacks_by_id += o.rollbacks_by_id;
+            tot.name_is_prefix_of_other += o.name_is_prefix_of_other;
+            tot.other_is_prefix_of_name += o.other_is_prefix_of_name;
+            tot.prefix_confusable += o.prefix_confusable;
+            tot.rollbacks_with_populated_cache += o.rollbacks_with_populated_cache;
+            tot.cached_entries_before_rollbacks += o.cached_entries_before_rollbacks;
+            tot.cache_filling_batteries += o.cache_filling_batteries;
             for (hh, a, r, au) in &o.nontrivial {
                 if nontrivial.insert(*hh) {
                     nt_added += u64::from(*a);
@@ -1386,7 +1726,7 @@ fn explore(rep: &mut Report, pt: &Part, workers: usize, selftest: bool) -> Stats
                     sampled += 1;
                     // the statements as they were executed (worker processes do not send them back)
                     let texts = run_isolated(h, cfg, false, 1, false).texts;
-                    rep.sample(json!({"part": part, "max_checkpoints": max_cp(), "auto_checkpoint": cfg.auto, "store": cfg.store_name(), "history": texts}));
+                    rep.sample(json!({"part": part, "max_checkpoints": max_cp(), "auto_checkpoint": cfg.auto, "store": cfg.store_name(), "query_cache": cfg.cache, "entry_point": cfg.entry_name(), "history": texts}));
                 }
                 if depth < last_level {
                     next.push((h.clone(), o.live_ordinals));
@@ -1407,6 +1747,13 @@ fn explore(rep: &mut Report, pt: &Part, workers: usize, selftest: bool) -> Stats
         part,
         json!({
             "max_checkpoints": max_cp(), "auto_checkpoint": cfg.auto, "store": cfg.store_name(), "alphabet": format!("{alphabet:?}"),
+            "query_cache": cfg.cache, "entry_point": cfg.entry_name(), "checkpoint_names": cfg.names_name(),
+            "rollbacks_addressed_by_name": tot.rollbacks_by_name, "rollbacks_addressed_by_full_id": tot.rollbacks_by_id,
+            "rollbacks_by_name_whose_name_is_a_proper_prefix_of_another_retained_name": tot.name_is_prefix_of_other,
+            "rollbacks_by_name_with_another_retained_name_that_is_a_proper_prefix": tot.other_is_prefix_of_name,
+            "rollbacks_by_name_where_the_prefix_related_checkpoint_has_another_image": tot.prefix_confusable,
+            "rollbacks_with_populated_query_cache": tot.rollbacks_with_populated_cache, "cached_entries_before_those_rollbacks": tot.cached_entries_before_rollbacks,
+            "cache_filling_batteries": tot.cache_filling_batteries,
             "full_depth": full_depth, "extra_restricted_level": extra_level, "levels": levels, "replays": replays,
             "distinct_states": seen.len(), "distinct_data_observations": data_states.len(),
             "rollback_checks": tot.rollback_checks, "distinct_nontrivial_rollbacks": nontrivial.len(),
@@ -1435,5 +1782,11 @@ fn explore(rep: &mut Report, pt: &Part, workers: usize, selftest: bool) -> Stats
         auto_rollbacks,
         auto_nontrivial: nt_auto,
         mixed,
+        by_name: tot.rollbacks_by_name,
+        by_id: tot.rollbacks_by_id,
+        name_is_prefix_of_other: tot.name_is_prefix_of_other,
+        other_is_prefix_of_name: tot.other_is_prefix_of_name,
+        prefix_confusable: tot.prefix_confusable,
+        rollbacks_with_cache: tot.rollbacks_with_populated_cache,
     }
 }
